@@ -197,6 +197,69 @@ def evolution_pairs() -> List[Tuple[str, L.Schema, L.Message, L.Schema, L.Messag
     return pairs
 
 
+def rewrite_variants() -> List[Tuple[str, L.Schema, L.Message, object]]:
+    """C12: (variant name, schema, top message, value map base-value -> variant-value).  The first entry is the base."""
+    def base_defs(names=None, field_order=None, def_order=None, inline_alias=False, unnest=False, numbers=None,
+                  cap_text=None, imported=False, extra_alias=False):
+        nm = names or {}
+        n = lambda x: nm.get(x, x)
+        num = numbers or {"id": 1, "mode": 2, "pos": 3, "samples": 4, "flag": 7, "tags": 9}
+        mode = L.Enum(n("Mode"), 3, [(n("MODE_OFF"), 0), (n("MODE_ON"), 1), (n("MODE_AUTO"), 5)])
+        ts = L.Alias(n("Sample"), L.Int(13))
+        pos = L.Message(n("Pos"), [L.Field(n("x"), 1, L.Int(11)), L.Field(n("y"), 2, L.Int(11))])
+        sample_t = L.Int(13) if inline_alias else ts
+        idt = L.Alias(n("Ident"), L.Uint(10)) if extra_alias else L.Uint(10)
+        fields = {
+            "id": L.Field(n("id"), num["id"], idt),
+            "mode": L.Field(n("mode"), num["mode"], mode),
+            "pos": L.Field(n("pos"), num["pos"], pos),
+            "samples": L.Field(n("samples"), num["samples"], L.Array(sample_t, 3, cap_text=cap_text)),
+            "flag": L.Field(n("flag"), num["flag"], L.Bool()),
+            "tags": L.Field(n("tags"), num["tags"], L.Array(L.Byte(), 2)),
+        }
+        order = field_order or ["id", "mode", "pos", "samples", "flag", "tags"]
+        top = L.Message(n("Station"), [fields[k] for k in order], nested=[] if unnest else [pos])
+        consts = [L.Const("TWO", "2", 2), L.Const("CAP", "TWO + 1", 3)] if cap_text else []
+        shared = [d for d in ([mode] + ([] if inline_alias else [ts]) + ([idt] if extra_alias else []))]
+        if imported:
+            lib = L.Schema("rwlib", shared + ([pos] if unnest else []))
+            return L.Schema("rw", consts + [top], imports=[(lib, None)]), top
+        defs = consts + shared + ([pos] if unnest else []) + [top]
+        if def_order:
+            defs = consts + [shared[i] for i in def_order if i < len(shared)] + ([pos] if unnest else []) + [top]
+        return L.Schema("rw", defs), top
+    ident = lambda v: v
+    out = []
+    s, t = base_defs()
+    out.append(("base", s, t, ident))
+    ren = {"Mode": "Kind", "MODE_OFF": "KIND_A", "MODE_ON": "KIND_B", "MODE_AUTO": "KIND_C", "Sample": "Reading", "Pos": "Coord",
+           "x": "east", "y": "north", "Station": "Node", "id": "ident", "mode": "kind", "pos": "coord", "samples": "readings",
+           "flag": "ok", "tags": "labels"}
+    s, t = base_defs(names=ren)
+    out.append(("renamed", s, t, lambda v: {ren[k]: ({ren[kk]: vv for kk, vv in val.items()} if isinstance(val, dict) else val)
+                                            for k, val in v.items()}))
+    s, t = base_defs(field_order=["tags", "flag", "samples", "pos", "mode", "id"])
+    out.append(("fields-reordered", s, t, ident))
+    s, t = base_defs(def_order=[1, 0])
+    out.append(("definitions-reordered", s, t, ident))
+    s, t = base_defs(inline_alias=True)
+    out.append(("alias-inlined", s, t, ident))
+    s, t = base_defs(extra_alias=True)
+    out.append(("alias-introduced", s, t, ident))
+    s, t = base_defs(unnest=True)
+    out.append(("unnested", s, t, ident))
+    s, t = base_defs(imported=True)
+    out.append(("moved-to-import", s, t, ident))
+    s, t = base_defs()
+    s.semi, s.comment = ";", True
+    out.append(("comments-semicolons", s, t, ident))
+    s, t = base_defs(cap_text="CAP")
+    out.append(("constant-expression", s, t, ident))
+    s, t = base_defs(numbers={"id": 2, "mode": 5, "pos": 6, "samples": 40, "flag": 41, "tags": 255})
+    out.append(("renumbered", s, t, ident))
+    return out
+
+
 def units(tier: str) -> List[Unit]:
     us = [leaf_unit(t) for t in kind_tags(tier)]
     us += composite_units()
